@@ -39,6 +39,9 @@ peers = [
  dict(kex=['curve25519-sha256', 'diffie-hellman-group-exchange-sha256', 'diffie-hellman-group14-sha1'], key=['ssh-ed25519', 'rsa-sha2-512', 'ssh-rsa'], enc=['aes128-ctr', 'aes256-gcm@openssh.com', '3des-cbc'], mac=['hmac-sha2-256-etm@openssh.com', 'hmac-sha1', 'umac-64@openssh.com']),
  dict(kex=['diffie-hellman-group1-sha1', 'gss-group1-sha1-toWM5Slw5Ew8Mqkay+al2g==', 'gss-curve25519-sha256-toWM5Slw5Ew8Mqkay+al2g==', 'sntrup761x25519-sha512@openssh.com'], key=['ssh-dss', 'ecdsa-sha2-nistp256'], enc=['arcfour', 'aes256-ctr'], mac=['hmac-md5', 'hmac-sha2-512']),
  dict(kex=['curve25519-sha256@libssh.org', 'kex-strict-s-v00@openssh.com', 'ext-info-s', 'foo-kex@example.com'], key=['ssh-ed25519', 'ssh-ed25519-cert-v01@openssh.com'], enc=['chacha20-poly1305@openssh.com', 'foo-cipher'], mac=['hmac-sha2-256', 'foo-mac']),
+ # the two directions differ: CBC ciphers and an ETM MAC only in the server-to-client lists (the lists the report rates)
+ dict(kex=['curve25519-sha256'], key=['ssh-ed25519'], enc=['aes128-ctr', 'aes128-cbc', '3des-cbc'], mac=['hmac-sha2-256-etm@openssh.com', 'hmac-sha1'], cli_enc=['aes128-ctr'], cli_mac=['hmac-sha2-256']),
+ dict(kex=['curve25519-sha256'], key=['ssh-ed25519'], enc=['aes256-cbc', 'aes128-ctr'], mac=['hmac-sha2-256'], cli_enc=[''], cli_mac=['hmac-sha1-etm@openssh.com']),
 ]
 versions = {}
 for cat in DB:
@@ -73,7 +76,7 @@ for pi, peer in enumerate(peers):
             continue      # the full version sweep is done for the first peer
         cases += 1
         inp = {'peer': pi, 'product': prod, 'version': ver}
-        kex = H.make_kex(peer['kex'], peer['key'], peer['enc'], peer['mac'])
+        kex = H.make_kex(peer['kex'], peer['key'], peer['enc'], peer['mac'], cli_enc=peer.get('cli_enc'), cli_mac=peer.get('cli_mac'))
         status, text = H.run_output(kex=kex, banner=banner(prod, ver))
         recs = H.rec_lines(text)
         finds = H.text_findings(text)
@@ -136,7 +139,7 @@ for pi, peer in enumerate(peers):
             fail(inp, {'recommended both ways': both}, 'nothing', 'both')
         # severity of each removal/change recommendation == worst rating the same report shows for that algorithm (JSON view carries the level)
         if ver in ('10.0', '9.9', '7.4', '0.10.6', '2022.83', '20240101', '1.0') or pi == 0 and cases %% 7 == 0:
-            kex = H.make_kex(peer['kex'], peer['key'], peer['enc'], peer['mac'])
+            kex = H.make_kex(peer['kex'], peer['key'], peer['enc'], peer['mac'], cli_enc=peer.get('cli_enc'), cli_mac=peer.get('cli_mac'))
             st2, js = H.run_output(kex=kex, banner=banner(prod, ver), json_out=True)
             doc = json.loads(js)
             rated = {}
